@@ -5,6 +5,7 @@
   included. Lifted to histories by induction.
 -/
 import HSModel.Proofs.StepLemmas
+import HSModel.Proofs.RefineAll
 namespace HS.C04
 open Abs
 variable (cfg : Config) (o : Oracle)
@@ -148,5 +149,26 @@ example : Holds { objs := FMap.empty.set "c".toList 7,
                   bind := (FMap.empty.set "p".toList "c".toList).set "q".toList "c".toList,
                   docs := .empty } "q".toList "c".toList 7 := by
   constructor <;> decide
+
+
+/-- **concrete**: a pid reference and the object it names survive every
+    concrete history of public calls that contains no `delete_object` of that pid -/
+theorem concrete_history_keeps (st : Store) (log : List Eff) (a : Abs) (hs : Sim o st a) (ho : GoodOracle o)
+    (hist : List Call) (q c : Str) (t : Tok)
+    (hb : st.pidRefs.get (o.hId q) = some c) (hobj : st.objs.get c = some t)
+    (hh : ∀ call ∈ hist, ¬ IsDeleteOf q call) (hcs : ∀ c ∈ hist, CidArgPlain c) :
+    let w := (runHist cfg o hist (calm st log)).2
+    w.st.pidRefs.get (o.hId q) = some c ∧ w.st.objs.get c = some t := by
+  intro w
+  obtain ⟨_, hs2, _, _⟩ := refines_history_from cfg o hist (calm st log) a rfl rfl hs ho hcs
+  have hstate : ∀ (cs : List Call) (a : Abs), (specHist cfg o cs a).2 = runHistory cfg o a cs := by
+    intro cs
+    induction cs with
+    | nil => intro a; rfl
+    | cons c r ih => intro a; simp only [specHist, runHistory]; exact ih _
+  rw [hstate] at hs2
+  have h0 : Holds a q c t := ⟨by rw [hs.rel.bind]; exact hb, by rw [hs.rel.objs]; exact hobj⟩
+  obtain ⟨k1, k2⟩ := history_keeps cfg o a hist q c t hh h0
+  exact ⟨by rw [← hs2.rel.bind]; exact k1, by rw [← hs2.rel.objs]; exact k2⟩
 
 end HS.C04
